@@ -87,6 +87,15 @@ func vfC10(env *vfc.Env) {
 		if n < 0 {
 			n = 0
 		}
+		if r.Intn(12) == 0 && a.MaxVal >= 30000 {
+			// a block repeated at an exact boundary distance (LZ window / offset-field limits)
+			class = "farrepeat"
+			d := ref.FarRepeatDistances[r.Intn(len(ref.FarRepeatDistances))]
+			for 2*d+300 > a.MaxVal {
+				d /= 2
+			}
+			n, side = 2*d+r.Pick(0, 1, 300), "far-repeat"
+		}
 		flag := uint32(r.Pick(0, 0, 1, 0x20))
 		if r.Intn(5) == 0 {
 			flag |= ref.FlagClientCompress
